@@ -833,6 +833,37 @@ func ruleTextIdentity(p *Prog, l *Ledger, tier string) {
 	}
 	for _, b := range blocks {
 		for _, ins := range b.Instrs {
+			// sameness decided by a map keyed by the identity string: m[item.String()]
+			if lk, isLk := ins.(*ssa.Lookup); isLk {
+				mt, isMap := lk.X.Type().Underlying().(*types.Map)
+				if !isMap || !isStringT(mt.Key()) {
+					continue
+				}
+				kc, isCall := lk.Index.(*ssa.Call)
+				if !isCall || kc.Call.StaticCallee() != str {
+					continue
+				}
+				n++
+				key := l.Key(rule, "Subtitles.Unfragment", "compare", "")
+				okKeys := true
+				if refs := lk.X.Referrers(); refs != nil {
+					for _, r := range *refs {
+						if mu, ok := r.(*ssa.MapUpdate); ok {
+							if uc, ok := mu.Key.(*ssa.Call); !ok || uc.Call.StaticCallee() != str {
+								okKeys = false
+							}
+						}
+					}
+				}
+				if stale := keptWithoutMapUpdate(lk); okKeys && stale != nil {
+					l.Fail(rule, "Subtitles.Unfragment", key, p.Pos(stale.Pos()), "Subtitles.Unfragment keeps a cue at "+p.Pos(stale.Pos())+" on a path that does not record it in the map of last kept cues: a later cue with the same text is then compared with an older cue (one it does not touch) and stays unmerged although it touches the one kept here")
+				} else if okKeys {
+					l.Prove(rule, "Subtitles.Unfragment", key, p.Pos(lk.Pos()), "sameness is decided by a map keyed by Item.String(): entries are stored and looked up under the rendered string, and every cue that is kept is recorded")
+				} else {
+					l.Fail(rule, "Subtitles.Unfragment", key, p.Pos(lk.Pos()), "the map consulted under Item.String() is filled under another key: cues are matched by something other than the rendered string")
+				}
+				continue
+			}
 			bo, ok := ins.(*ssa.BinOp)
 			if !ok || (bo.Op != token.EQL && bo.Op != token.NEQ) {
 				continue
@@ -1700,5 +1731,108 @@ func isSetElem(t types.Type) bool {
 	if st, ok := t.Underlying().(*types.Struct); ok && st.NumFields() == 0 {
 		return true
 	}
+	// a small bit mask per key (marks |= used / inherited): membership is "some bit set"
+	if b, ok := t.Underlying().(*types.Basic); ok {
+		switch b.Kind() {
+		case types.Uint8, types.Uint16, types.Uint32, types.Uint, types.Int, types.Int8:
+			return true
+		}
+	}
 	return false
+}
+
+// keptWithoutMapUpdate: lk looks a cue's text up in a map of kept cues. Returns an append that keeps a cue (the value
+// the map is updated with elsewhere) reachable within one trip of the enclosing loop without passing any update of
+// that map, or nil.
+func keptWithoutMapUpdate(lk *ssa.Lookup) ssa.Instruction {
+	fn := lk.Parent()
+	refs := lk.X.Referrers()
+	if refs == nil {
+		return nil
+	}
+	updBlocks := map[*ssa.BasicBlock]bool{}
+	vals := map[ssa.Value]bool{}
+	for _, r := range *refs {
+		if mu, ok := r.(*ssa.MapUpdate); ok {
+			updBlocks[mu.Block()] = true
+			vals[mu.Value] = true
+		}
+	}
+	if len(vals) == 0 {
+		return nil
+	}
+	var li *loopInfo
+	for _, l2 := range loopsOf(fn) {
+		if l2.blocks[lk.Block()] && (li == nil || len(l2.blocks) < len(li.blocks)) {
+			li = l2
+		}
+	}
+	if li == nil {
+		return nil
+	}
+	for b := range li.blocks {
+		for _, ins := range b.Instrs {
+			c, ok := ins.(*ssa.Call)
+			if !ok {
+				continue
+			}
+			bi, ok := c.Call.Value.(*ssa.Builtin)
+			if !ok || bi.Name() != "append" {
+				continue
+			}
+			keeps := false
+			if sl, ok := c.Call.Args[1].(*ssa.Slice); ok {
+				if al, ok := sl.X.(*ssa.Alloc); ok {
+					for _, r := range *al.Referrers() {
+						if ia, ok := r.(*ssa.IndexAddr); ok {
+							for _, r2 := range *ia.Referrers() {
+								if st, ok := r2.(*ssa.Store); ok && vals[st.Val] {
+									keeps = true
+								}
+							}
+						}
+					}
+				}
+			}
+			if !keeps {
+				continue
+			}
+			// a way from the loop header to b that avoids every update of the map
+			seen := map[*ssa.BasicBlock]bool{}
+			var dfs func(x *ssa.BasicBlock) bool
+			dfs = func(x *ssa.BasicBlock) bool {
+				if seen[x] || !li.blocks[x] {
+					return false
+				}
+				seen[x] = true
+				if updBlocks[x] {
+					// the update may come after the append in the same block
+					if x == b {
+						for _, i2 := range x.Instrs {
+							if i2 == ssa.Instruction(c) {
+								return true
+							}
+							if mu, ok := i2.(*ssa.MapUpdate); ok && mu.Map == lk.X {
+								return false
+							}
+						}
+					}
+					return false
+				}
+				if x == b {
+					return true
+				}
+				for _, sc := range x.Succs {
+					if sc != li.header && dfs(sc) {
+						return true
+					}
+				}
+				return false
+			}
+			if dfs(li.header) {
+				return c
+			}
+		}
+	}
+	return nil
 }
